@@ -38,7 +38,8 @@ def del_comments(text: str) -> str:
     """
     def replacer(match) -> str:
         s = match.group(0)
-        return " " if s.startswith('/') else s
+        # a comment becomes a blank but keeps its line breaks
+        return " " + "\n" * s.count("\n") if s.startswith('/') else s
 
     pattern = re.compile(
         r'//.*?$|/\*.*?\*/|\'(?:\\.|[^\\\'])*\'|"(?:\\.|[^\\"])*"',
